@@ -1,7 +1,7 @@
 """Registry entry, manifest texts for C05."""
 
 ENTRY = {'parts': [{'scenario': 'scenarios.s_pool', 'chunk': 6}],
-         'quick': {'runs': 2500, 'budget': 55}, 'thorough': {'runs': 150000, 'budget': 1200}}
+         'quick': {'runs': 2500, 'budget': 40}, 'thorough': {'runs': 150000, 'budget': 1200}}
 
 TEXT = {'level': 'Seeded search over limits x durations x scan/result races: pool-level and per-job hard limits, '
           'jobs whose duration straddles the limit by -2..+5 s, pool sizes 1-4 (incl. 1), maps sharing the '
